@@ -210,6 +210,23 @@ def check_slot_records(res, db, lcs) -> int:
         if f is not None:
           written.setdefault(f.path, []).append(a)
     kind = "flex" if "contact.flex" in written else "rigid"
+    # conditional definition: literals under which EVERY write of a field sits; a field whose writes all carry a literal
+    # that some other slot field is written without is only defined on part of the paths that hand out the slot
+    base = {p: set.intersection(*[set(a.pc) for a in ws]) for p, ws in written.items()}
+    anchor = set.intersection(*base.values()) if base else set()
+    for pth, b in sorted(base.items()):
+      extra = b - anchor
+      n += 1
+      res.ob(
+        not extra,
+        f"{lc.name}|{pth}|unconditional",
+        Finding(
+          "R-LIVE.5",
+          f"{lc.name}|{pth}|slot-field-conditionally-written",
+          f"{lc.name} writes Data.{pth} for a freshly allocated contact slot only under [{'; '.join(show(l)[:60] for l in sorted(extra, key=show))}] while other fields of the same slot are written without that condition: on the other paths the slot keeps the value of its previous occupant",
+          written[pth][0].loc,
+        ),
+      )
     for spec in cfields:
       n += 1
       ws = written.get(spec.path, [])
